@@ -340,13 +340,26 @@ fn inactivity_parts(s: &mut Session) {
         "inactivity-directed",
         "seven short scenarios x lane kind x options of two consumers x empty_timeout 20 / 60 ms x 5 variants, each ending with the final idle period (everybody has left, three lane events, nothing for five timeouts => the runtime must have terminated by itself): (1) A leaves, the lane is silent, B arrives 1 ms .. 3 timeouts after the write task's lone vote, B leaves; (2) A leaves, two lane events tell the read task 2 ms later, B arrives 1 ms before both votes / at the first / between the two / at the second / after the stop; (3) B arrives less than a timeout after A left; (4) A's reader leaves, its command writer a timeout later; (5) A's command writer closes, A listens for two more timeouts and must be served; (6) nobody ever attaches; (7) three consumers one after the other, each arriving while only the write task's vote is outstanding; counters `c17/*`; distinct by the global order of receipts",
         false,
-        script::INACTIVITY_CASES,
+        // (`--scale` below 1 runs a prefix of the grid: lane kind and scenario vary fastest)
+        s.args.budget(script::INACTIVITY_CASES, script::INACTIVITY_CASES).min(script::INACTIVITY_CASES),
         |i, rng, out| {
             let (cfg, script, name) = script::inactivity_case(i);
             out.count(&format!("scenario-{name}"));
             run_script(&cfg, &script, rng, out);
         },
     );
+    if s.args.extra_u64("witness").unwrap_or(0) > 0 {
+        s.part(
+            "inactivity-witness",
+            "minimal witness of `downlink/idle-runtime-never-stopped/value/departed-consumer-never-synced` (see script.rs) x lane kind x 64 repetitions (the outcome depends on the read task's unbiased choice between its inputs); only with `--witness 1`",
+            false,
+            script::WITNESS_CASES,
+            |i, rng, out| {
+                let (cfg, script) = script::inactivity_witness_case(i);
+                run_script(&cfg, &script, rng, out);
+            },
+        );
+    }
     let cases = s.args.budget(60_000, 1_500_000);
     inactivity_part(s, "inactivity-value", LaneKind::Value, cases);
     let cases = s.args.budget(60_000, 1_500_000);
